@@ -1,7 +1,7 @@
 """C08 — run()/stop(): started once, everything queued is drained, stopped once, exit code propagates, re-runnable.
 
 Spec: {"cycles": [CYCLE, ...], "idle_stops": [n, ...]}          idle_stops[k] = stop() calls on the non-running manager before cycle k
-  CYCLE = {"tree": NODE, "stop": {"at": node index (0 = the `started` handler), "where": "handler"|"genstep"|"thread",
+  CYCLE = {"sco": k (0 = plain `stopped` handler; k>0: it is a coroutine that call()s an event and then fires k-1 more), "tree": NODE, "stop": {"at": node index (0 = the `started` handler), "where": "handler"|"genstep"|"thread",
                                   "kind": "stop"|"stopcode"|"sysexit"|"kbd", "code": null|0|3|"msg", "after": bool}}
   NODE  = {"kids": [NODE, ...], "prio": p}
 Every node is an event whose handler fires its kids; node 0 is fired by nobody: its handler IS the `started` handler.
@@ -18,6 +18,10 @@ from vlib.runner import Prop, Result
 
 
 class node(Event):
+    pass
+
+
+class extra(Event):
     pass
 
 
@@ -99,7 +103,8 @@ class C08(Prop):
             'after': st.booleans(),
         })
         cyc = st.fixed_dictionaries({'tree': _tree(2 if tier == 'quick' else 3), 'stop': stop,
-                                     'chain': st.sampled_from([0, 0, 0, 2, 5, 9])})
+                                     'chain': st.sampled_from([0, 0, 0, 2, 5, 9]),
+                                     'sco': st.sampled_from([0, 0, 0, 1, 2, 4])})
         return st.fixed_dictionaries({
             'cycles': st.lists(cyc, min_size=1, max_size=3),
             'idle_stops': st.lists(st.integers(0, 2), min_size=3, max_size=3),
@@ -124,10 +129,28 @@ class C08(Prop):
             @H('stopped', priority=5)
             def _stopped(self, event, *a):
                 log.append(('disp', 'stopped'))
+                k = cur.get('sco', 0)
+                if k:
+                    # the `stopped` handler is a coroutine: it call()s one event and then fires a chain of k-1 more
+                    return stopped_co(self, k)
+
+            @H('extra')
+            def _extra(self, event, i, left):
+                log.append(('disp', 'x%d' % i))
+                if left > 0:
+                    log.append(('fired', 'x%d' % (i + 1)))
+                    self.fire(extra(i + 1, left - 1))
 
             @H('exception', channel='*')
             def _x(self, etype, evalue, tb, handler=None, fevent=None):
                 log.append(('exc', repr(evalue)))
+
+        def stopped_co(comp, k):
+            log.append(('fired', 'x0'))
+            yield comp.call(extra(0, 0))
+            if k > 1:
+                log.append(('fired', 'x1'))
+                comp.fire(extra(1, k - 2))
 
         def fire_kids(comp, n):
             for k in n['kids']:
@@ -237,9 +260,16 @@ class C08(Prop):
                 return bad('stopped-count', 'stopped dispatched %d times: %s' % (disp.count('stopped'), where))
             fired = [l[1] for l in log if l[0] == 'fired']
             dn = [d for d in disp if d not in ('started', 'stopped')]
-            if sorted(dn) != sorted(fired):
-                lost = sorted(set(fired) - set(dn))
+            if sorted(map(str, dn)) != sorted(map(str, fired)):
+                lost = sorted(set(map(str, fired)) - set(map(str, dn)))
                 return bad('event-dropped', 'fired %d events, dispatched %d before run() returned; lost %r: %s' % (len(fired), len(dn), lost[:6], where))
+            # reference evaluation: every handler fires its children unconditionally, so the whole program (tree, chain and
+            # the events of a coroutine `stopped` handler) is a consequence of `started`/stop and must have been dispatched
+            want = sorted([str(n['id']) for n in _iter_nodes(cyc['tree']) if n['id'] != 0] + ['x%d' % i for i in range(cyc.get('sco', 0))])
+            if sorted(map(str, dn)) != want:
+                missing = sorted(set(want) - set(map(str, dn)))
+                return bad('program-not-completed', 'events of the program never fired/dispatched before run() returned: %r (a handler was '
+                           'cut off or never resumed): %s' % (missing[:6], where))
             if len(app._queue):
                 return bad('queue-not-drained', '%d events left in the queue after run() returned: %s' % (len(app._queue), where))
             if app.running:
@@ -255,7 +285,7 @@ class C08(Prop):
             # non-trivial: what was pending when the stop executed
             sa = [l for l in log if l[0] == 'stop-action'][0]
             total = sum(1 for _ in _iter_nodes(cyc['tree'])) - 1
-            if total - sa[2] >= 2:
+            if total - sa[2] >= 2 or cyc.get('sco', 0) >= 2:
                 nontrivial = True
             classes.add('where:' + stop['where'])
             if cyc.get('chain', 0) > 4:
@@ -263,6 +293,8 @@ class C08(Prop):
             classes.add('kind:' + stop['kind'])
             if ci > 0:
                 classes.add('re-run')
+            if cyc.get('sco'):
+                classes.add('stopped-handler-is-a-coroutine')
         return Result(True, nontrivial=nontrivial, classes=sorted(classes))
 
 
